@@ -3,6 +3,8 @@ import RjModel.Lemmas.FilteredListing
 import RjModel.Lemmas.WalkOrderLemmas
 import RjModel.Lemmas.WalkerLemmas
 import RjModel.Generated.Walker
+import RjModel.Generated.ConfirmShape
+import RjModel.Model.ConfirmShape
 /-! # C17 — the directory walk lists every included entry exactly once and always finishes -/
 namespace Rj.C17
 open Rj Rj.Walker
@@ -148,5 +150,11 @@ theorem C17_walk_order_listing (fs : FS) (hw : fs.Wf) (r : FPath)
     (hclosed : ∀ p, p ≠ [] → fs.get (r ++ p) ≠ none → fs.get (r ++ p.dropLast) = some .folder) :
     DestWF (fun _ => true) fs r (listBelow fs r) :=
   destWF_of_listBelow fs hw r hroot hanc hclosed
+
+/-- **The doer's listing functions still have the shape the listing model was written against** (pins: the normalised texts of `filter_func` and
+`handle_get_entries` in doer.rs, extracted on every run, equal the copies in `Model/ConfirmShape.lean`): the path an entry is listed under is the one
+relative to the root, once; every entry the walk yields is sent; then the end marker. -/
+theorem C17_listing_shape : Generated.filterFuncShape = filterFuncShapeRef ∧ Generated.handleGetEntriesShape = handleGetEntriesShapeRef := ⟨by rfl, by rfl⟩
+
 
 end Rj.C17
